@@ -21,28 +21,30 @@ import (
 
 // Unit is one harness function explored at a set of parameter points.
 type Unit struct {
-	Name      string                      `json:"name"`
-	Pkg       string                      `json:"pkg"`
-	Harness   string                      `json:"harness"`
-	Fn        string                      `json:"fn"`
-	Init      []string                    `json:"init"`
-	Params    map[string]map[string][]int `json:"params"` // tier ("quick","thorough","all") -> name -> values
-	Expect    []string                    `json:"expect"` // vReach markers that must be hit by a feasible path
-	MustFail  bool                        `json:"must_fail"`
-	MustTags  []string                    `json:"must_tags"` // for must_fail units: tags one of which has to be violated
-	OnlyTags  []string                    `json:"only_tags"` // assertions of this unit that belong to this property (prefixes); others are another check's business
-	Replay    string                      `json:"replay"`    // native | symbolic
-	Tiers     []string                    `json:"tiers"`
-	Edits     []Edit                      `json:"edits"`
-	StepLimit int64                       `json:"step_limit"`
-	Decisions int                         `json:"decisions"`
-	CallDepth int                         `json:"call_depth"`
-	TimeoutMS int                         `json:"timeout_ms"`
-	Par       int                         `json:"par"`
-	Cross     bool                        `json:"cross"` // thorough tier: repeat with z3 5.1 and cvc5 and compare
-	What      string                      `json:"what"`
-	Hang      bool                        `json:"hang_is_violation"`
-	Conform   bool                        `json:"conform"` // translator validation: concrete harness, observations (vNote) compared with a native run
+	Name       string                      `json:"name"`
+	Pkg        string                      `json:"pkg"`
+	Harness    string                      `json:"harness"`
+	Fn         string                      `json:"fn"`
+	Init       []string                    `json:"init"`
+	Params     map[string]map[string][]int `json:"params"` // tier ("quick","thorough","all") -> name -> values
+	Shards     map[string]int              `json:"shards"` // tier -> number of workers each case is split over (by its first decisions)
+	ShardDepth int                         `json:"shard_depth"`
+	Expect     []string                    `json:"expect"` // vReach markers that must be hit by a feasible path
+	MustFail   bool                        `json:"must_fail"`
+	MustTags   []string                    `json:"must_tags"` // for must_fail units: tags one of which has to be violated
+	OnlyTags   []string                    `json:"only_tags"` // assertions of this unit that belong to this property (prefixes); others are another check's business
+	Replay     string                      `json:"replay"`    // native | symbolic
+	Tiers      []string                    `json:"tiers"`
+	Edits      []Edit                      `json:"edits"`
+	StepLimit  int64                       `json:"step_limit"`
+	Decisions  int                         `json:"decisions"`
+	CallDepth  int                         `json:"call_depth"`
+	TimeoutMS  int                         `json:"timeout_ms"`
+	Par        int                         `json:"par"`
+	Cross      bool                        `json:"cross"` // thorough tier: repeat with z3 5.1 and cvc5 and compare
+	What       string                      `json:"what"`
+	Hang       bool                        `json:"hang_is_violation"`
+	Conform    bool                        `json:"conform"` // translator validation: concrete harness, observations (vNote) compared with a native run
 }
 
 // CheckSpec describes the check of one property.
@@ -67,14 +69,14 @@ type Finding struct {
 }
 
 type unitOutcome struct {
-	unit      *Unit
-	solver    string
-	results   []interp.CaseResult
-	fatal     string
-	loadS     float64
-	packages  int
-	wallS     float64
-	nworkers  int
+	unit     *Unit
+	solver   string
+	results  []interp.CaseResult
+	fatal    string
+	loadS    float64
+	packages int
+	wallS    float64
+	nworkers int
 }
 
 func expandParams(u *Unit, tier string) []map[string]int {
@@ -121,12 +123,18 @@ func inTier(u *Unit, tier string) bool {
 
 var procSem chan struct{}
 
-func runWorker(self string, spec WorkerSpec) (results []interp.CaseResult, loadS float64, npk int, fatal string) {
+// runWorker starts one worker process and feeds it jobs from the shared queue until the queue is
+// empty (dynamic scheduling: a worker that finishes early takes the next job).
+func runWorker(self string, spec WorkerSpec, queue <-chan Job) (results []interp.CaseResult, loadS float64, npk int, fatal string) {
 	procSem <- struct{}{}
 	defer func() { <-procSem }()
-	in, _ := json.Marshal(spec)
+	spec.Jobs = nil
+	spec.Stream = true
 	cmd := exec.Command(self, "worker")
-	cmd.Stdin = bytes.NewReader(in)
+	stdin, err := cmd.StdinPipe()
+	if err != nil {
+		return nil, 0, 0, err.Error()
+	}
 	var stderr bytes.Buffer
 	cmd.Stderr = &stderr
 	if os.Getenv("VERIF_PROGRESS") != "" {
@@ -139,40 +147,62 @@ func runWorker(self string, spec WorkerSpec) (results []interp.CaseResult, loadS
 	if err := cmd.Start(); err != nil {
 		return nil, 0, 0, err.Error()
 	}
+	enc := json.NewEncoder(stdin)
+	enc.Encode(spec)
 	sc := bufio.NewScanner(out)
 	sc.Buffer(make([]byte, 1<<20), 1<<28)
-	for sc.Scan() {
-		line := sc.Text()
-		switch {
-		case strings.HasPrefix(line, "RESULT "):
-			var r struct {
-				Unit   string            `json:"unit"`
-				Result interp.CaseResult `json:"result"`
+	// readUntil consumes worker output up to and including the next line of the given kind
+	readUntil := func(kind string) bool {
+		for sc.Scan() {
+			line := sc.Text()
+			switch {
+			case strings.HasPrefix(line, "RESULT "):
+				var r struct {
+					Unit   string            `json:"unit"`
+					Result interp.CaseResult `json:"result"`
+				}
+				if err := json.Unmarshal([]byte(line[7:]), &r); err == nil {
+					results = append(results, r.Result)
+				}
+			case strings.HasPrefix(line, "LOAD "):
+				var l struct {
+					LoadS    float64 `json:"load_s"`
+					Packages int     `json:"packages"`
+				}
+				json.Unmarshal([]byte(line[5:]), &l)
+				loadS, npk = l.LoadS, l.Packages
+			case strings.HasPrefix(line, "FATAL "):
+				fatal = line[6:]
+				return false
 			}
-			if err := json.Unmarshal([]byte(line[7:]), &r); err == nil {
-				results = append(results, r.Result)
+			if strings.HasPrefix(line, kind+" ") {
+				return true
 			}
-		case strings.HasPrefix(line, "LOAD "):
-			var l struct {
-				LoadS    float64 `json:"load_s"`
-				Packages int     `json:"packages"`
-			}
-			json.Unmarshal([]byte(line[5:]), &l)
-			loadS, npk = l.LoadS, l.Packages
-		case strings.HasPrefix(line, "FATAL "):
-			fatal = line[6:]
 		}
+		return false
+	}
+	sent := 0
+	if readUntil("LOAD") {
+		for j := range queue {
+			sent++
+			if enc.Encode(j) != nil || !readUntil("RESULT") {
+				break
+			}
+		}
+	}
+	stdin.Close()
+	for sc.Scan() {
 	}
 	werr := cmd.Wait()
 	if stderr.Len() > 0 && os.Getenv("VERIF_DEBUG") != "" {
 		os.Stderr.Write(stderr.Bytes())
 	}
-	if fatal == "" && len(results) < len(spec.Jobs) {
+	if fatal == "" && len(results) < sent {
 		tail := stderr.String()
 		if len(tail) > 1500 {
 			tail = tail[len(tail)-1500:]
 		}
-		fatal = fmt.Sprintf("worker ended after %d of %d jobs (%v): %s", len(results), len(spec.Jobs), werr, tail)
+		fatal = fmt.Sprintf("worker ended after %d of %d jobs (%v): %s", len(results), sent, werr, tail)
 	}
 	return
 }
@@ -186,6 +216,23 @@ func runUnit(self, verif, repo string, spec *CheckSpec, u *Unit, tier, solver st
 		}
 	}
 	cases := expandParams(u, tier)
+	if n := u.Shards[tier]; n > 1 {
+		depth := u.ShardDepth
+		if depth <= 0 {
+			depth = 8
+		}
+		var split []map[string]int
+		for _, c := range cases {
+			for k := 0; k < n; k++ {
+				m := map[string]int{"__shard": k, "__shards": n, "__shard_depth": depth}
+				for a, b := range c {
+					m[a] = b
+				}
+				split = append(split, m)
+			}
+		}
+		cases = split
+	}
 	par := u.Par
 	if par <= 0 {
 		par = 16
@@ -193,20 +240,21 @@ func runUnit(self, verif, repo string, spec *CheckSpec, u *Unit, tier, solver st
 	if par > len(cases) {
 		par = len(cases)
 	}
-	batches := make([][]Job, par)
-	for i, c := range cases {
-		batches[i%par] = append(batches[i%par], Job{Unit: u.Name, Fn: u.Fn, Params: c, Known: known})
+	queue := make(chan Job, len(cases))
+	for _, c := range cases {
+		queue <- Job{Unit: u.Name, Fn: u.Fn, Params: c, Known: known}
 	}
+	close(queue)
 	out := &unitOutcome{unit: u, solver: solver, nworkers: par}
 	var mu sync.Mutex
 	var wg sync.WaitGroup
-	for _, b := range batches {
+	for w := 0; w < par; w++ {
 		wg.Add(1)
-		go func(jobs []Job) {
+		go func() {
 			defer wg.Done()
 			ws := WorkerSpec{Repo: repo, Pkg: u.Pkg, HarnessDir: filepath.Join(verif, "harness", u.Harness), Init: u.Init,
-				Edits: u.Edits, Jobs: jobs, Solver: solver, StepLimit: u.StepLimit, Decisions: u.Decisions, CallDepth: u.CallDepth, TimeoutMS: u.TimeoutMS, Hang: u.Hang}
-			rs, ls, npk, fatal := runWorker(self, ws)
+				Edits: u.Edits, Solver: solver, StepLimit: u.StepLimit, Decisions: u.Decisions, CallDepth: u.CallDepth, TimeoutMS: u.TimeoutMS, Hang: u.Hang}
+			rs, ls, npk, fatal := runWorker(self, ws, queue)
 			mu.Lock()
 			out.results = append(out.results, rs...)
 			if ls > out.loadS {
@@ -217,7 +265,7 @@ func runUnit(self, verif, repo string, spec *CheckSpec, u *Unit, tier, solver st
 				out.fatal = fatal
 			}
 			mu.Unlock()
-		}(b)
+		}()
 	}
 	wg.Wait()
 	out.wallS = time.Since(t0).Seconds()
@@ -399,7 +447,12 @@ func runMain(args []string) int {
 		ws.Edits = append(ws.Edits, Edit{File: p[0], Old: p[1], New: p[2]})
 	}
 	os.Setenv("VERIF_DEBUG", "1")
-	rs, ls, npk, fatal := runWorker(self, ws)
+	adhocQ := make(chan Job, len(ws.Jobs))
+	for _, j := range ws.Jobs {
+		adhocQ <- j
+	}
+	close(adhocQ)
+	rs, ls, npk, fatal := runWorker(self, ws, adhocQ)
 	fmt.Printf("load %.1fs, %d packages\n", ls, npk)
 	if fatal != "" {
 		fmt.Println("FATAL:", fatal)
